@@ -177,7 +177,11 @@ def tuned_long_cells(tier):
     cells = [("CircularBinarySegmentation", {"min_segment_length": 1, "max_interval_length": 4, "growth_factor": 2.0}, 1700),
              ("CircularBinarySegmentation", {"min_segment_length": 2, "max_interval_length": 8, "growth_factor": 1.5}, 2100),
              ("SeededBinarySegmentation", {"min_segment_length": 1, "max_interval_length": 20, "growth_factor": 1.5}, 1500),
-             ("MovingWindow", {"bandwidth": 20}, 2600), ("MovingWindow", {"bandwidth": 5, "min_detection_interval": 1}, 800)]
+             ("MovingWindow", {"bandwidth": 20}, 2600), ("MovingWindow", {"bandwidth": 5, "min_detection_interval": 1}, 800),
+             # fine grids of interval lengths (growth 1.1-1.25): the candidate list holds one interval twice (counted, from the table)
+             ("SeededBinarySegmentation", {"min_segment_length": 5, "max_interval_length": 60, "growth_factor": 1.25}, 127),
+             ("SeededBinarySegmentation", {"min_segment_length": 3, "max_interval_length": 100, "growth_factor": 1.15}, 125),
+             ("CircularBinarySegmentation", {"min_segment_length": 5, "max_interval_length": 60, "growth_factor": 1.25}, 120)]
     if tier != "quick":
         cells += [("CircularBinarySegmentation", {"min_segment_length": 5, "max_interval_length": 20, "growth_factor": 1.5}, 2400),
                   ("SeededBinarySegmentation", {"min_segment_length": 5, "max_interval_length": 200, "growth_factor": 1.5}, 6000)]
@@ -224,7 +228,13 @@ def check_tuned(case):
         raise Violation("more than a fraction level of the training scores exceed the tuned threshold", level=level,
                         exceed=exceed, n_scores=N)
     distinct = len(set(np.round(train, 12)))
-    return {"nontrivial": distinct >= 3, "classes": [f"det={det_name}", f"n_scores>={(N // 1000) * 1000}"] + (["y_annotated"] if y is not None else [])}
+    classes = [f"det={det_name}", f"n_scores>={(N // 1000) * 1000}"] + (["y_annotated"] if y is not None else [])
+    if det_name != "MovingWindow":
+        a_, b_ = ("interval_start", "interval_end") if "interval_start" in det.scores.columns else ("start", "end")
+        pairs = list(zip(det.scores[a_].tolist(), det.scores[b_].tolist()))
+        if len(set(pairs)) < len(pairs):
+            classes.append("candidate_list_holds_an_interval_twice")
+    return {"nontrivial": distinct >= 3, "classes": classes}
 
 
 # ------------------------------------------------------------------ (iii) MVCAPA families (grid)
